@@ -82,11 +82,15 @@ func (s *Solver) start(i int) *proc {
 		return p
 	}
 	pre := "(set-option :produce-models true)\n"
+	capMs := s.capMs
+	if i == 0 { // the primary gives up early: the portfolio takes over
+		capMs = s.capMs / 4
+	}
 	if spec[0] == "cvc5" {
-		pre += fmt.Sprintf("(set-option :tlimit-per %d)\n", s.capMs)
+		pre += fmt.Sprintf("(set-option :tlimit-per %d)\n", capMs)
 		pre += "(set-logic ALL)\n"
 	} else {
-		pre += fmt.Sprintf("(set-option :timeout %d)\n", s.capMs)
+		pre += fmt.Sprintf("(set-option :timeout %d)\n", capMs)
 	}
 	s.send(p, pre)
 	return p
